@@ -132,7 +132,7 @@ func (e *Env) encodeRules(l *facts.Level) {
 	who := fname(enc)
 	pos := e.P.Pos(enc.Pos())
 	sf := e.P.SSAFunc(enc)
-	leaves, err := ir.Leaves(sf, ir.LeafOptions{Forward: true, Effects: true, MaxPaths: 20000})
+	leaves, err := ir.Leaves(sf, ir.LeafOptions{Forward: true, Effects: true, MaxPaths: 20000, Inline: e.inlineHelpers()})
 	if err != nil {
 		c.Undecided("encode-emissions", who, pos, err.Error())
 		return
